@@ -15,6 +15,9 @@ def main(argv=None):
     ap.add_argument("--replay")
     ap.add_argument("--runs", type=int)
     ap.add_argument("--budget", type=float)
+    ap.add_argument("--digests", type=int, help="self-test: dump run digests of the first N seeds to --out")
+    ap.add_argument("--out")
+    ap.add_argument("--dump-log", type=int, help="self-test: print the full event log of run index I")
     a = ap.parse_args(argv)
     from qsim import runner
 
@@ -22,6 +25,12 @@ def main(argv=None):
     if a.replay:
         return runner.replay(prop, a.replay)
     seed = int(os.environ.get("VERIF_SEED", "0") or 0)
+    if a.digests:
+        return runner.dump_digests(prop, a.tier, seed, a.digests, a.out)
+    if a.dump_log is not None:
+        for ln in runner.dump_log(prop, a.tier, seed, a.dump_log):
+            print(ln)
+        return 0
     return runner.run_batch(prop, a.tier, seed, runs=a.runs, budget_s=a.budget)
 
 
